@@ -12,6 +12,7 @@ pub mod c07;
 pub mod c08;
 pub mod c09;
 pub mod c10;
+pub mod c11;
 pub mod c12;
 pub mod c13;
 pub mod c14;
@@ -39,6 +40,7 @@ pub fn run(id: &str, tier: Tier) -> Option<Outcome> {
         "C08" => c08::run(tier),
         "C09" => c09::run(tier),
         "C10" => c10::run(tier),
+        "C11" => c11::run(tier),
         "C12" => c12::run(tier),
         "C13" => c13::run(tier),
         "C14" => c14::run(tier),
@@ -63,6 +65,7 @@ pub fn replay(id: &str, replay: &serde_json::Value) -> Option<Vec<crate::mc::Vio
         "C08" => Some(c08::replay(replay)),
         "C09" => Some(c09::replay(replay)),
         "C10" => Some(c10::replay(replay)),
+        "C11" => Some(c11::replay(replay)),
         "C12" => Some(c12::replay(replay)),
         "C13" => Some(c13::replay(replay)),
         "C14" => Some(c14::replay(replay)),
